@@ -7,7 +7,7 @@ signature equals the entry's sig.  "fixed" entries suppress nothing."""
 import json
 import os
 
-PATH = '/verif/known_findings.json'
+PATH = os.path.join(os.environ.get('VERIF_ROOT', '/verif'), 'known_findings.json')
 
 
 def load(prop_id):
